@@ -20,6 +20,7 @@ RULE = ("fixtures (plain folder with nested sub-folder, a 70 kB file and names s
 START, END = "autocopy_start.txt", "autocopy_end.txt"
 FILES = {"a.txt": b"alpha\n", "z.bin": bytes(range(200)), "sub/inner.txt": b"inner file\n", "big.bin": bytes([7]) * 70000}
 ZIP_SPLIT = {"batch_0.zip": ["a.txt", "sub/inner.txt"], "batch_1.zip": ["z.bin", "big.bin"]}
+ZIP_SPLIT3 = {"batch_0.zip": ["a.txt"], "batch_1.zip": ["sub/inner.txt", "z.bin"], "batch_2.zip": ["big.bin"]}
 
 
 def write_tree(root, t):
@@ -59,7 +60,7 @@ def build_source(groot, fmt, rel):
         make_zip(src + ".zip", list(FILES))
     else:
         os.makedirs(src)
-        for z, names in ZIP_SPLIT.items():
+        for z, names in (ZIP_SPLIT3 if fmt == "zips3" else ZIP_SPLIT).items():
             make_zip(os.path.join(src, z), names)
         with open(os.path.join(src, "README.txt"), "wb") as f:
             f.write(b"readme\n")
@@ -67,8 +68,8 @@ def build_source(groot, fmt, rel):
 
 def expected_data(fmt, fn):
     """{relative name: bytes} of the data files a complete copy holds (markers excluded)."""
-    if fmt == "zips" and fn == "image_folder":
-        return {os.path.join(z[:-4], n): FILES[n] for z, names in ZIP_SPLIT.items() for n in names}
+    if fmt in ("zips", "zips3") and fn == "image_folder":
+        return {os.path.join(z[:-4], n): FILES[n] for z, names in (ZIP_SPLIT3 if fmt == "zips3" else ZIP_SPLIT).items() for n in names}
     return dict(FILES)
 
 
@@ -229,10 +230,10 @@ def final_checks(sc, state_tree, history, p):
         if res["was_copied"] != bool(ops1):
             bad("result_untruthful", f"was_copied={res['was_copied']} but the call performed {len(ops1)} file-system mutations")
         if res["was_copied"]:
-            if sc.fn == "folder" and res.get("source_format") != {"raw": "raw", "zip": "zip", "zips": "zips"}[sc.fmt]:
+            if sc.fn == "folder" and res.get("source_format") != {"raw": "raw", "zip": "zip", "zips": "zips", "zips3": "zips"}[sc.fmt]:
                 bad("result_untruthful", f"source_format={res.get('source_format')} for a {sc.fmt} source")
             if sc.fn == "image_folder" and (bool(res.get("was_zip")), bool(res.get("was_zip_classwise"))) != \
-                    (sc.fmt == "zip", sc.fmt == "zips"):
+                    (sc.fmt == "zip", sc.fmt in ("zips", "zips3")):
                 bad("result_untruthful", f"{res} for a {sc.fmt} source")
         if was_complete and ops1:
             bad("completed_copy_deleted_or_redone", f"a completed automatic copy was touched: {ops1[:6]}")
@@ -308,11 +309,21 @@ def scenarios(tier, seed):
             if combo == key and workers == (1 if fmt == "zips" else 0):
                 sel.append(s)
         out = sel
+        out.append(("zips3", None, "parent", "folder", 2, False))
+    else:
+        for fn in ("folder", "image_folder"):
+            for workers in (2, 3):
+                out.append(("zips3", None, "parent", fn, workers, False))
+                out.append(("zips", "nest/ds", "absent", fn, workers, True))
     return out
 
 
 def task(args):
     specs, depth, cap_states = args
+    if specs[0][4] >= 2:
+        # joblib workers are separate interpreters: only the parent's own operations are crash points, and a call costs
+        # seconds - explore the uninterrupted behaviour (quick) and crash histories of depth 1 (thorough)
+        depth = 0 if depth <= 2 else 1
     p = Partial()
     base = tempfile.mkdtemp(prefix="kdv_c20_base_")
     try:
@@ -358,7 +369,9 @@ def run(run):
         "match an interposer point (counter interposer_strace_check_ok; 'skipped' where strace cannot attach)",
         "a crash is process death (os._exit): no fsync / power-loss reasoning; trees are compared by names, kinds and bytes",
         "metadata-only operations (chmod, utime) are not crash points",
-        "num_workers >= 2 (joblib child processes) is not interposed and not explored",
+        "num_workers >= 2: the joblib children are separate interpreters and are not interposed; explored are the uninterrupted "
+        "call + idempotence (quick) and the parent's own crash points to depth 1 (thorough), on a fixture whose zip count is not "
+        "a multiple of the worker count",
         "for a folder of zips the complete copy is the union of the zip contents (the README is not part of the dataset)",
     ]
 
